@@ -37,11 +37,15 @@ where
     ///
     /// If the bounds aren't valid for the given string data then None is returned.
     pub fn new(string: Ptr<String>, bounds: Range<usize>) -> Option<Self> {
-        try_from_range(&bounds).map(|bounds| Self {
-            data: string,
-            bounds,
-            _niche: false,
-        })
+        if string.get(bounds.clone()).is_some() {
+            try_from_range(&bounds).map(|bounds| Self {
+                data: string,
+                bounds,
+                _niche: false,
+            })
+        } else {
+            None
+        }
     }
 
     /// Initializes a string slice with the given string data and bounds
